@@ -62,17 +62,16 @@ example : windowIdx 6 2 3 = [1, 2, 4] ∧ windowIdx 6 2 0 = [1] ∧ windowIdx 6 
     ∧ windowRow 6 2 3 [10, 11, 12, 13, 14, 15] = [11, 12, 14] := by
   refine ⟨by decide, by decide, by decide, by decide⟩
 
-/-- on `n × n` matrices whose window slices never hold exactly one frame, `_gauc` is the triplet-ranking
-    definition: the mean, over the query frames that have a reference triple, of `#correct / #triples`
-    (queries without a reference triple are skipped, `0/0 ↦ 0`) -/
+/-- on `n × n` matrices `_gauc` is the triplet-ranking definition: the mean, over the query frames that have a
+    reference triple, of `#correct / #triples` (queries without a reference triple are skipped, `0/0 ↦ 0`) -/
 theorem gauc_spec (n : Nat) (ref est : Mat) (hr : IsSquare n ref) (he : IsSquare n est)
-    (transitive : Bool) (window : Option Nat) (hw : min n (winOf window n) ≠ 1) :
+    (transitive : Bool) (window : Option Nat) :
     gauc ref est transitive window = .ok (gaucSpec ref est transitive (winOf window n)) :=
-  gauc_eq_spec n ref est hr he transitive window hw
+  gauc_eq_spec n ref est hr he transitive window
 
-example : IsSquare 3 [[2, 1, 0], [1, 2, 0], [0, 0, 2]] ∧ min 3 (winOf none 3) ≠ 1
+example : IsSquare 3 [[2, 1, 0], [1, 2, 0], [0, 0, 2]]
     ∧ gaucSpec [[2, 1, 0], [1, 2, 0], [0, 0, 2]] [[1, 1, 1], [1, 1, 0], [1, 0, 1]] true 3 = 1 / 2 := by
-  refine ⟨⟨rfl, by decide⟩, by decide, by decide +kernel⟩
+  refine ⟨⟨rfl, by decide⟩, by decide +kernel⟩
 
 /-- whatever `_gauc` returns lies in [0, 1] (any matrices, any window) -/
 theorem gauc_range (ref est : Mat) (transitive : Bool) (window : Option Nat) (s : Rat)
@@ -84,38 +83,22 @@ theorem gauc_shape_mismatch (ref est : Mat) (transitive : Bool) (window : Option
     (h : ref.length ≠ est.length) : gauc ref est transitive window = .error .valueError :=
   Hierarchy.gauc_shape_mismatch ref est transitive window h
 
-/-- FULL-STRENGTH totality: on same-size square matrices, with a window of at least one frame (which is what
-    `frame_size ≤ window` guarantees), `_gauc` returns a score in [0, 1].  FALSE of the unchanged code. -/
-def C17_gauc_total_full_statement : Prop :=
-  ∀ (n : Nat) (ref est : Mat), IsSquare n ref → IsSquare n est →
-    ∀ (transitive : Bool) (window : Option Nat), (∀ w, window = some w → 1 ≤ w) →
-      ∃ s, gauc ref est transitive window = .ok s ∧ 0 ≤ s ∧ s ≤ 1
-
-/-- witness: a one-frame track (the 1×1 slice is squeezed to a 0-d array and indexed) -/
-theorem C17_gauc_total_full_statement_false : ¬ C17_gauc_total_full_statement := by
-  intro h
-  obtain ⟨s, hs, _⟩ := h 1 [[1]] [[1]] ⟨rfl, by decide⟩ ⟨rfl, by decide⟩ true none (by intro w hw; cases hw)
-  rw [gauc_indexError 1 [[1]] [[1]] ⟨rfl, by decide⟩ ⟨rfl, by decide⟩ true none (by decide)] at hs
-  cases hs
-
-/-- the strongest true version: outside the region `min(n, w) = 1` the score exists, is the definition,
-    and lies in [0, 1] -/
-theorem gauc_total_partial (n : Nat) (ref est : Mat) (hr : IsSquare n ref) (he : IsSquare n est)
-    (transitive : Bool) (window : Option Nat) (hw : min n (winOf window n) ≠ 1) :
+/-- totality at full strength (the single-frame-slice IndexError was repaired by a550b6d): on same-size square
+    matrices, for every window, `_gauc` returns the triplet-ranking definition, a score in [0, 1] -/
+theorem gauc_total (n : Nat) (ref est : Mat) (hr : IsSquare n ref) (he : IsSquare n est)
+    (transitive : Bool) (window : Option Nat) :
     ∃ s, gauc ref est transitive window = .ok s ∧ s = gaucSpec ref est transitive (winOf window n)
       ∧ 0 ≤ s ∧ s ≤ 1 := by
-  have h := gauc_eq_spec n ref est hr he transitive window hw
+  have h := gauc_eq_spec n ref est hr he transitive window
   exact ⟨_, h, rfl, Hierarchy.gauc_range h⟩
 
-/-- and the excluded region is exactly where the code raises: a one-frame track, or a one-frame window
-    (`floor(window / frame_size) = 1`, e.g. `window = frame_size`) on any non-empty track -/
-theorem gauc_single_frame_slice_raises (n : Nat) (ref est : Mat) (hr : IsSquare n ref) (he : IsSquare n est)
-    (transitive : Bool) (window : Option Nat) (hw : min n (winOf window n) = 1) :
-    gauc ref est transitive window = .error .indexError :=
-  gauc_indexError n ref est hr he transitive window hw
-
-example : gauc [[1, 1], [1, 1]] [[1, 1], [1, 1]] false (some 1) = .error .indexError :=
-  gauc_single_frame_slice_raises 2 _ _ ⟨rfl, by decide⟩ ⟨rfl, by decide⟩ false (some 1) (by decide)
+/-- the formerly failing inputs: a one-frame track and a one-frame window now score (no result frame is left in
+    such a window, so there is no triple and the query is skipped) -/
+example : gauc [[1]] [[1]] true none = .ok 0
+    ∧ gauc [[1, 1], [1, 1]] [[1, 1], [1, 1]] false (some 1) = .ok 0 := by
+  constructor
+  · rw [gauc_spec 1 _ _ ⟨rfl, by decide⟩ ⟨rfl, by decide⟩]; decide +kernel
+  · rw [gauc_spec 2 _ _ ⟨rfl, by decide⟩ ⟨rfl, by decide⟩]; decide +kernel
 
 /-! ### `_lca`, `_meet` -/
 
@@ -165,78 +148,42 @@ theorem windowFrames_pos (w fs : Rat) (h0 : 0 < fs) (h : fs ≤ w) :
     ∃ k, 1 ≤ k ∧ windowFrames (some w) fs = .ok (some k) :=
   Hierarchy.windowFrames_pos w fs h0 h
 
-/-- the defect of `gauc_single_frame_slice_raises`, end to end: a valid two-level annotation compared with
-    itself, `window = frame_size` (accepted by the parameter check), raises IndexError -/
-theorem tmeasure_window_eq_frame_size_witness :
-    tmeasure [[(0, 4)], [(0, 2), (2, 4)]] [[(0, 4)], [(0, 2), (2, 4)]] false (some (1/2)) (1/2) 1
-      = .error .indexError := by
-  decide +kernel
-
-/-- FULL-STRENGTH statement at the public function: for every valid pair of hierarchical segmentations
-    (every level partitions one common span `[0, T]`, nested or not) and every accepted parameter setting,
-    `tmeasure` returns three scores in [0, 1].  FALSE of the unchanged code. -/
-def C17_tmeasure_total_full_statement : Prop :=
-  ∀ (ref est : Hier) (T : Rat) (transitive : Bool) (window : Option Rat) (fs beta : Rat),
-    ValidHier ref T → ValidHier est T → 0 < fs → (∀ w, window = some w → fs ≤ w) →
-    ∃ p r f, tmeasure ref est transitive window fs beta = .ok (p, r, f)
-      ∧ (0 ≤ p ∧ p ≤ 1) ∧ (0 ≤ r ∧ r ≤ 1) ∧ (0 ≤ f ∧ f ≤ 1)
-
-theorem C17_tmeasure_total_full_statement_false : ¬ C17_tmeasure_total_full_statement := by
-  intro h
-  have hv : ValidHier [[(0, 4)], [(0, 2), (2, 4)]] 4 := by
-    refine ⟨by simp, ?_⟩
-    intro lv hlv
-    simp only [List.mem_cons, List.not_mem_nil, or_false] at hlv
-    rcases hlv with rfl | rfl
-    · exact ⟨by simp, by simp only [Chain]; norm_num⟩
-    · exact ⟨by simp, by simp only [Chain]; norm_num⟩
-  obtain ⟨p, r, f, hok, _⟩ := h _ _ 4 false (some (1/2)) (1/2) 1 hv hv (by norm_num)
-    (by intro w hw; cases hw; exact le_refl _)
-  rw [tmeasure_window_eq_frame_size_witness] at hok
-  cases hok
-
-/-- the strongest true version: on valid annotations with accepted parameters, `n = floor(T/fs)` frames and
-    `w = floor(window/fs)` (or `n` for `None`), `tmeasure` raises IndexError when `min(n, w) = 1` and otherwise
+/-- totality at the public function, at full strength (repaired by a550b6d): for every valid pair of
+    hierarchical segmentations (every level partitions one common span `[0, T]`, nested or not) and every accepted
+    parameter setting, with `n = floor(T/fs)` frames and `w = floor(window/fs)` (or `n` for `None`), `tmeasure`
     returns (precision, recall, F) = the triplet definition with roles exchanged / as given / `f_measure`,
     all in [0, 1] -/
-theorem tmeasure_total_partial (ref est : Hier) (T : Rat) (transitive : Bool) (window : Option Rat)
+theorem tmeasure_total (ref est : Hier) (T : Rat) (transitive : Bool) (window : Option Rat)
     (fs beta : Rat) (hr : ValidHier ref T) (he : ValidHier est T) (h0 : 0 < fs)
     (hw : ∀ w, window = some w → fs ≤ w) :
     ∃ wf rl el, windowFrames window fs = .ok wf ∧ lca ref fs = .ok rl ∧ lca est fs = .ok el
-      ∧ (min (framesOf T fs) (winOf wf (framesOf T fs)) = 1 →
-          tmeasure ref est transitive window fs beta = .error .indexError)
-      ∧ (min (framesOf T fs) (winOf wf (framesOf T fs)) ≠ 1 →
-          ∃ p r f, tmeasure ref est transitive window fs beta = .ok (p, r, f)
+      ∧ ∃ p r f, tmeasure ref est transitive window fs beta = .ok (p, r, f)
             ∧ r = gaucSpec rl el transitive (winOf wf (framesOf T fs))
             ∧ p = gaucSpec el rl transitive (winOf wf (framesOf T fs))
             ∧ f = fMeasure p r beta
-            ∧ (0 ≤ p ∧ p ≤ 1) ∧ (0 ≤ r ∧ r ≤ 1) ∧ (0 ≤ f ∧ f ≤ 1)) := by
-  obtain ⟨wf, rl, el, hwf, hrl, hel, _, _, herr, hok⟩ :=
+            ∧ (0 ≤ p ∧ p ≤ 1) ∧ (0 ≤ r ∧ r ≤ 1) ∧ (0 ≤ f ∧ f ≤ 1) := by
+  obtain ⟨wf, rl, el, hwf, hrl, hel, _, _, h⟩ :=
     tmeasure_valid ref est T transitive window fs beta hr he h0 hw
-  refine ⟨wf, rl, el, hwf, hrl, hel, herr, ?_⟩
-  intro h1
-  have h := hok h1
-  exact ⟨_, _, _, h, rfl, rfl, rfl, Hierarchy.tmeasure_range h⟩
+  exact ⟨wf, rl, el, hwf, hrl, hel, _, _, _, h, rfl, rfl, rfl, Hierarchy.tmeasure_range h⟩
 
-/-- the same for `lmeasure` (labels no longer than their intervals): IndexError exactly for a one-frame track -/
-theorem lmeasure_total_partial (ref est : Hier) (rls els : List (List String)) (T fs beta : Rat)
+/-- the same for `lmeasure` (labels no longer than their intervals) -/
+theorem lmeasure_total (ref est : Hier) (rls els : List (List String)) (T fs beta : Rat)
     (hr : ValidHier ref T) (he : ValidHier est T) (h0 : 0 < fs)
     (hrf : ∀ x ∈ ref.zip rls, x.2.length ≤ x.1.length) (hef : ∀ x ∈ est.zip els, x.2.length ≤ x.1.length) :
     ∃ rm em, meet ref rls fs = .ok rm ∧ meet est els fs = .ok em
-      ∧ (framesOf T fs = 1 → lmeasure ref rls est els fs beta = .error .indexError)
-      ∧ (framesOf T fs ≠ 1 →
-          ∃ p r f, lmeasure ref rls est els fs beta = .ok (p, r, f)
+      ∧ ∃ p r f, lmeasure ref rls est els fs beta = .ok (p, r, f)
             ∧ r = gaucSpec rm em true (framesOf T fs) ∧ p = gaucSpec em rm true (framesOf T fs)
             ∧ f = fMeasure p r beta
-            ∧ (0 ≤ p ∧ p ≤ 1) ∧ (0 ≤ r ∧ r ≤ 1) ∧ (0 ≤ f ∧ f ≤ 1)) := by
-  obtain ⟨rm, em, hrm, hem, _, _, herr, hok⟩ := lmeasure_valid ref est rls els T fs beta hr he h0 hrf hef
-  refine ⟨rm, em, hrm, hem, herr, ?_⟩
-  intro h1
-  have h := hok h1
-  exact ⟨_, _, _, h, rfl, rfl, rfl, Hierarchy.lmeasure_range h⟩
+            ∧ (0 ≤ p ∧ p ≤ 1) ∧ (0 ≤ r ∧ r ≤ 1) ∧ (0 ≤ f ∧ f ≤ 1) := by
+  obtain ⟨rm, em, hrm, hem, _, _, h⟩ := lmeasure_valid ref est rls els T fs beta hr he h0 hrf hef
+  exact ⟨rm, em, hrm, hem, _, _, _, h, rfl, rfl, rfl, Hierarchy.lmeasure_range h⟩
 
-example : ValidHier [[(0, 4)], [(0, 2), (2, 4)]] 4 ∧ framesOf 4 1 = 4 := by
-  refine ⟨⟨by simp, ?_⟩, by decide +kernel⟩
+/-- non-vacuity: a valid two-level annotation; and the former defect witnesses (`window = frame_size`, a one-frame
+    track) now return scores -/
+example : ValidHier [[(0, 4)], [(0, 2), (2, 4)]] 4 ∧ framesOf 4 1 = 4
+    ∧ tmeasure [[(0, 4)], [(0, 2), (2, 4)]] [[(0, 4)], [(0, 2), (2, 4)]] false (some (1/2)) (1/2) 1 = .ok (0, 0, 0)
+    ∧ lmeasure [[(0, 1)]] [["a"]] [[(0, 1)]] [["a"]] 1 1 = .ok (0, 0, 0) := by
+  refine ⟨⟨by simp, ?_⟩, by decide +kernel, by decide +kernel, by decide +kernel⟩
   intro lv hlv
   simp only [List.mem_cons, List.not_mem_nil, or_false] at hlv
   rcases hlv with rfl | rfl
@@ -250,33 +197,32 @@ theorem tmeasure_spec (ref est : Hier) (transitive : Bool) (window : Option Rat)
     (h : tmeasure ref est transitive window fs beta = .ok (p, r, f)) :
     ∃ (n : Nat) (wf : Option Nat) (rl el : Mat),
       windowFrames window fs = .ok wf ∧ lca ref fs = .ok rl ∧ lca est fs = .ok el
-      ∧ IsSquare n rl ∧ IsSquare n el ∧ min n (winOf wf n) ≠ 1
+      ∧ IsSquare n rl ∧ IsSquare n el
       ∧ r = gaucSpec rl el transitive (winOf wf n)
       ∧ p = gaucSpec el rl transitive (winOf wf n)
       ∧ f = fMeasure p r beta := by
   obtain ⟨_, wf, rl, el, hw, _, _, hrl, hel, hr, hp, hf⟩ := tmeasure_ok h
   obtain ⟨nr, _, hsr⟩ := lca_isSquare hrl
   obtain ⟨ne, _, hse⟩ := lca_isSquare hel
-  obtain ⟨hn, hw1, hrs⟩ := gauc_ok_square hsr hse hr
+  obtain ⟨hn, hrs⟩ := gauc_ok_square hsr hse hr
   subst hn
-  obtain ⟨_, _, hps⟩ := gauc_ok_square hse hsr hp
-  exact ⟨nr, wf, rl, el, hw, hrl, hel, hsr, hse, hw1, hrs, hps, hf⟩
+  obtain ⟨_, hps⟩ := gauc_ok_square hse hsr hp
+  exact ⟨nr, wf, rl, el, hw, hrl, hel, hsr, hse, hrs, hps, hf⟩
 
 /-- the same for `lmeasure`: meet (label-agreement depth) matrices, all level differences, no window -/
 theorem lmeasure_spec (ref est : Hier) (rls els : List (List String)) (fs beta p r f : Rat)
     (h : lmeasure ref rls est els fs beta = .ok (p, r, f)) :
     ∃ (n : Nat) (rm em : Mat),
       meet ref rls fs = .ok rm ∧ meet est els fs = .ok em
-      ∧ IsSquare n rm ∧ IsSquare n em ∧ n ≠ 1
+      ∧ IsSquare n rm ∧ IsSquare n em
       ∧ r = gaucSpec rm em true n ∧ p = gaucSpec em rm true n ∧ f = fMeasure p r beta := by
   obtain ⟨_, rm, em, _, _, hrm, hem, hr, hp, hf⟩ := lmeasure_ok h
   obtain ⟨nr, _, hsr⟩ := meet_isSquare hrm
   obtain ⟨ne, _, hse⟩ := meet_isSquare hem
-  obtain ⟨hn, hw1, hrs⟩ := gauc_ok_square hsr hse hr
+  obtain ⟨hn, hrs⟩ := gauc_ok_square hsr hse hr
   subst hn
-  obtain ⟨_, _, hps⟩ := gauc_ok_square hse hsr hp
-  refine ⟨nr, rm, em, hrm, hem, hsr, hse, ?_, hrs, hps, hf⟩
-  simpa [winOf] using hw1
+  obtain ⟨_, hps⟩ := gauc_ok_square hse hsr hp
+  exact ⟨nr, rm, em, hrm, hem, hsr, hse, hrs, hps, hf⟩
 
 /-- precision = recall with the roles exchanged -/
 theorem tmeasure_swap (ref est : Hier) (transitive : Bool) (window : Option Rat) (fs beta p r f : Rat)
